@@ -576,16 +576,15 @@ theorem shiftCount_uint (t : ValueType) (hf : isFloat t = false) (b : Nat) :
   unfold shiftCount
   rw [if_neg (by simp [hf]), if_neg (by simp only []; omega)]; simp
 
-/-- the count of a shift: the Model's `shift_length` is the Spec's count, provided a generic
-count is stored masked (this is where finding C07-1 enters) -/
-theorem shiftLength_refines (a : Nat) (y : Value) (hy : WF y)
-    (hg : y.ty = .generic → y.bits < 2 ^ (8 * a)) :
-    Value.shiftLength y = shiftCount (absV a y) := by
+/-- the count of a shift: the Model's `shift_length` is the Spec's count — a generic count is
+masked to the address size (since the `fix:` for finding C07-1) -/
+theorem shiftLength_refines (a : Nat) (y : Value) (hy : WF y) :
+    Value.shiftLength y (maskOf a) = shiftCount (absV a y) := by
   obtain ⟨ty, b⟩ := y
   have hb : b < 2 ^ ty.width := hy
   cases ty <;> simp only [ValueType.width] at hb
-  · have := hg rfl
-    simp [Value.shiftLength, shiftCount, absV, ValueType.kind, isFloat, Nat.mod_eq_of_lt this]
+  · show Out.ok (b &&& maskOf a) = shiftCount ⟨.generic, ((b % 2 ^ (8 * a) : Nat) : Int)⟩
+    rw [and_mask, shiftCount_uint _ rfl]
   all_goals first
     | exact shiftLength_sint _ b hb
     | (simp [Value.shiftLength, shiftCount, absV, ValueType.kind, isFloat]; done)
@@ -657,13 +656,10 @@ theorem shra_s (w : Nat) (hw : w = 8 ∨ w = 16 ∨ w = 32 ∨ w = 64) (x c : Na
 theorem ok_val_congr {t : ValueType} {v v' : Int} (h : v = v') :
     (Out.ok (⟨t, v⟩ : SVal)) = Out.ok ⟨t, v'⟩ := by rw [h]
 
-/-- hypothesis of the shift theorems: a *generic* count has no bits above the address size -/
-def CountMasked (a : Nat) (y : Value) : Prop := y.ty = .generic → y.bits < 2 ^ (8 * a)
 
-theorem shl_refines (a : Nat) (ha : AddrSize a) (x y : Value) (ix : IsInt x) (hy : WF y)
-    (hg : CountMasked a y) :
+theorem shl_refines (a : Nat) (ha : AddrSize a) (x y : Value) (ix : IsInt x) (hy : WF y) :
     (Value.shl x y (maskOf a)).map (absV a) = binary a .shl (absV a x) (absV a y) := by
-  simp only [Value.shl, binary, shiftLength_refines a y hy hg, maskBitSize_mask a ha]
+  simp only [Value.shl, binary, shiftLength_refines a y hy, maskBitSize_mask a ha]
   cases shiftCount (absV a y) with
   | ok c =>
     obtain ⟨tx, bx⟩ := x
@@ -674,10 +670,9 @@ theorem shl_refines (a : Nat) (ha : AddrSize a) (x y : Value) (ix : IsInt x) (hy
   | panic p => rfl
   | diverge => rfl
 
-theorem shr_refines (a : Nat) (ha : AddrSize a) (x y : Value) (ix : IsInt x) (hy : WF y)
-    (hg : CountMasked a y) :
+theorem shr_refines (a : Nat) (ha : AddrSize a) (x y : Value) (ix : IsInt x) (hy : WF y) :
     (Value.shr x y (maskOf a)).map (absV a) = binary a .shr (absV a x) (absV a y) := by
-  simp only [Value.shr, binary, shiftLength_refines a y hy hg, maskBitSize_mask a ha]
+  simp only [Value.shr, binary, shiftLength_refines a y hy, maskBitSize_mask a ha]
   cases shiftCount (absV a y) with
   | ok c =>
     obtain ⟨tx, bx⟩ := x
@@ -688,10 +683,9 @@ theorem shr_refines (a : Nat) (ha : AddrSize a) (x y : Value) (ix : IsInt x) (hy
   | panic p => rfl
   | diverge => rfl
 
-theorem shra_refines (a : Nat) (ha : AddrSize a) (x y : Value) (ix : IsInt x) (hy : WF y)
-    (hg : CountMasked a y) :
+theorem shra_refines (a : Nat) (ha : AddrSize a) (x y : Value) (ix : IsInt x) (hy : WF y) :
     (Value.shra x y (maskOf a)).map (absV a) = binary a .shra (absV a x) (absV a y) := by
-  simp only [Value.shra, binary, shiftLength_refines a y hy hg, maskBitSize_mask a ha]
+  simp only [Value.shra, binary, shiftLength_refines a y hy, maskBitSize_mask a ha]
   cases shiftCount (absV a y) with
   | ok c =>
     obtain ⟨tx, bx⟩ := x
@@ -711,7 +705,7 @@ def IsShift : BinOp → Prop
 instance : DecidablePred IsShift := fun op => by cases op <;> simp [IsShift] <;> infer_instance
 
 theorem binary_refines (a : Nat) (ha : AddrSize a) (op : BinOp) (x y : Value) (ix : IsInt x)
-    (hy : WF y) (hg : IsShift op → CountMasked a y) :
+    (hy : WF y) :
     (binaryOf op x y (maskOf a)).map (absV a) = binary a op (absV a x) (absV a y) := by
   cases op
   case add => exact add_refines a ha x y ix
@@ -722,9 +716,9 @@ theorem binary_refines (a : Nat) (ha : AddrSize a) (op : BinOp) (x y : Value) (i
   case and => exact and_refines a x y ix
   case or => exact or_refines a x y ix
   case xor => exact xor_refines a x y ix
-  case shl => exact shl_refines a ha x y ix hy (hg trivial)
-  case shr => exact shr_refines a ha x y ix hy (hg trivial)
-  case shra => exact shra_refines a ha x y ix hy (hg trivial)
+  case shl => exact shl_refines a ha x y ix hy
+  case shr => exact shr_refines a ha x y ix hy
+  case shra => exact shra_refines a ha x y ix hy
   case eq => exact eq_refines a ha x y ix
   case ge => exact ge_refines a ha x y ix
   case gt => exact gt_refines a ha x y ix
